@@ -152,6 +152,27 @@ pub fn generate(tier: &str, rng: &mut Rng) -> (Vec<String>, bool) {
             push_case(&mut out, "ts_fdiff", &xs, w, None, t, OUTS[rng.below(3)], Some(DS[i % DS.len()]));
         }
     }
+    // element types with fewer mantissa bits than the accumulators: f32 values k/4096 (15 significant
+    // bits: exact in f32, their squares are not) and 32-bit integers whose squares overflow i32; the
+    // closures must convert to f64 *before* multiplying (power sums stay exact in f64)
+    let narrow = if thorough { 4000 } else { 400 };
+    for i in 0..narrow {
+        let len = 2 + rng.below(24);
+        let w = 1 + rng.below(len + 1);
+        let mp = if rng.chance(0.3) { None } else { Some(rng.below(w + 1)) };
+        if i % 2 == 0 {
+            let xs: Vec<String> = (0..len).map(|_| { let k = rng.range(-32767, 32767); if rng.chance(0.1) { "_".to_string() } else { format!("{}/4096", k) } }).collect();
+            let f = VALID_FNS[rng.below(VALID_FNS.len())];
+            push_case(&mut out, f, &xs, w, mp, "f32", "f64", None);
+        } else {
+            let xs: Vec<String> = (0..len).map(|_| format!("{}", rng.range(-60000, 60000))).collect();
+            let f = ["ts_vsum", "ts_vmean", "ts_vstd", "ts_vvar", "ts_vwma", "ts_vewm", "ts_sum", "ts_mean", "ts_std", "ts_var"][rng.below(10)];
+            let t = if VALID_FNS.contains(&f) { ["i32", "oi32"][rng.below(2)] } else { "i32" };
+            push_case(&mut out, f, &xs, w, mp, t, "f64", None);
+        }
+    }
+    // the same requests as small fluctuations around a large level (1024 + v/128)
+    crate::cases::add_leveled(&mut out, 11, 1024, &["xs", "ys"]);
     // the same requests at scales 2^-12 .. 2^-15: variances a few orders of magnitude above EPS
     crate::cases::add_scaled(&mut out, 9, &[12, 13, 14, 15], &["xs", "ys"]);
     (out, true)
